@@ -19,6 +19,8 @@ def _calls(n) -> List[ast.Call]:
 
 
 def run(chk: Check) -> None:
+    from .common import waiting_future_key
+    WFK = waiting_future_key(chk.prog)
     prog = chk.prog
     # 1. registration: a step that registered awaitables is followed only through WAITING
     ds = prog.func('workchains.WorkChain._do_step')
@@ -80,7 +82,15 @@ def run(chk: Check) -> None:
     def process_to_future(f, store_key: str, item: str) -> bool:
         """The key under which an awaitable is tracked is its future if it is a Process, else the awaitable itself."""
         fff = chk.ctx.facts.analyse(f)
-        vals = conditional_values(fff, store_key)
+        vals = conditional_values(fff, store_key) if store_key.isidentifier() else []
+        if not vals:
+            # the index spelled out in place (``table[a.future() if isinstance(a, Process) else a] = key``), possibly after inlining a helper
+            try:
+                ke = ast.parse(store_key, mode='eval').body
+            except SyntaxError:
+                ke = None
+            if isinstance(ke, ast.IfExp):
+                vals = [(frozenset(fff.cond_atoms(ke.test, True)), ke.body), (frozenset(fff.cond_atoms(ke.test, False)), ke.orelse)]
         fut = [(fs, v) for fs, v in vals if norm(v) == f'{item}.future()']
         same = [(fs, v) for fs, v in vals if norm(v) == item]
         if len(vals) != len(fut) + len(same) or not fut or not same:
@@ -115,7 +125,7 @@ def run(chk: Check) -> None:
     ad = prog.func('workchains.Waiting._awaitable_done')
     acfg = cfg_of(ad)
     af = chk.ctx.facts.analyse(ad)
-    wake = [n for n in acfg.nodes if any(last_name(c) == 'set_result' and af.canon.key(c.func.value) == 'self._waiting_future' for c in _calls(n))]
+    wake = [n for n in acfg.nodes if any(last_name(c) == 'set_result' and af.canon.key(c.func.value) == WFK for c in _calls(n))]
     chk.ob('DOM-barrier-guard', ad, len(wake) == 1, 'the wake-up is performed at one site', kind='single-wake-site')
     pops = [n for n in acfg.nodes if any(norm(c.func) == 'self._awaiting.pop' for c in _calls(n))]
     ok = bool(wake) and all(('F', 'self._awaiting') in af.at(w) for w in wake) and bool(pops) and all(acfg.must_pass(acfg.entry, [w], lambda m: m in pops, edge_ok=no_exc) for w in wake)
@@ -131,8 +141,8 @@ def run(chk: Check) -> None:
     chk.ob('DOM-barrier-guard', ad, ok, 'no completion is ignored: every normal path through the done-callback reads the awaitable\'s outcome (a result skipped because "the wait is already decided" '
            '-- it is also "decided" while a pause interruption sits in the future -- never reaches the context)', kind='outcome-always-read')
     from .common import cancellation_delivered
-    cancellation_delivered(chk, 'DOM-barrier-guard', 'workchains.Waiting._awaitable_done', 'self._waiting_future', 'the completion of an awaited item (a cancelled item is a failed one)')
-    fails = [n for n in acfg.nodes if any(last_name(c) == 'set_exception' and af.canon.key(c.func.value) == 'self._waiting_future' for c in _calls(n))]
+    cancellation_delivered(chk, 'DOM-barrier-guard', 'workchains.Waiting._awaitable_done', WFK, 'the completion of an awaited item (a cancelled item is a failed one)')
+    fails = [n for n in acfg.nodes if any(last_name(c) == 'set_exception' and af.canon.key(c.func.value) == WFK for c in _calls(n))]
     ok = False
     for h in [h for t in ast.walk(ad.node) if isinstance(t, ast.Try) for h in t.handlers]:
         if h.type is not None and norm(h.type) in ('Exception', 'BaseException') and h.name:
